@@ -11,14 +11,14 @@ use neurons::tensor::Tensor;
 
 pub fn meta(_ctx: &Ctx) -> Meta {
     Meta {
-        rule: "data-set sizes M in {1,2,3,63,64,65,127,128,129,130,200} (below, at, above the internal chunk size 64, not multiples of it) x heads {soft-max(3), linear(1), linear(3), sigmoid(2)} x bodies {dense, conv+dense, conv+pool+dense, dense with a multiplicative skip connection, dense with a loop connection} x 7 objectives x tolerances {1e-6,0.1,0.5,10}; inputs pairwise distinct; targets placed clearly inside / outside the tolerance per component, arg-max unique. Oracles: predict_batch(xs)[i] bit-equal predict(xs[i]) in input order, length M; predict = last activation of forward; validate loss = mean of objective.loss(predict(x),t); accuracy by the three documented rules; validate and predict_batch repeated inside pools of 1 and 2 workers. A state is one (M, head, body, objective, tolerance) configuration; transitions = predictions made; non-trivial = M >= 2".into(),
+        rule: "data-set sizes M in {0 (predict_batch only),1,2,3,63,64,65,127,128,129,130,200} (below, at, above the internal chunk size 64, not multiples of it) x heads {soft-max(3), linear(1), linear(3), sigmoid(2)} x bodies {dense, conv+dense, conv+pool+dense, dense with a multiplicative skip connection, dense with a loop connection} x 7 objectives x tolerances {1e-6,0.1,0.5,10}; inputs pairwise distinct; targets placed clearly inside / outside the tolerance per component, arg-max unique. Oracles: predict_batch(xs)[i] bit-equal predict(xs[i]) in input order, length M; predict = last activation of forward; validate loss = mean of objective.loss(predict(x),t); accuracy by the three documented rules; validate and predict_batch repeated inside pools of 1 and 2 workers. A state is one (M, head, body, objective, tolerance) configuration; transitions = predictions made; non-trivial = M >= 2".into(),
         bound: "M <= 200; complete product".into(),
         exhaustive: true,
         assumptions: vec!["the mean is compared with tolerance (M+2)*eps*mean|term| (any summation order)".into()],
     }
 }
 
-const SIZES: [usize; 11] = [1, 2, 3, 63, 64, 65, 127, 128, 129, 130, 200];
+const SIZES: [usize; 12] = [0, 1, 2, 3, 63, 64, 65, 127, 128, 129, 130, 200];
 const TOLS: [f32; 4] = [1e-6, 0.1, 0.5, 10.0];
 
 fn net_for(head: &str, body: &str) -> Net {
@@ -94,6 +94,19 @@ pub fn check(seed: u64, case: &Kv, rep: &mut Report) {
         })
         .collect();
     let refs: Vec<&Tensor> = xs.iter().collect();
+    if m == 0 {
+        // nothing to aggregate: predict_batch of no inputs is the empty list
+        rep.transitions += 1;
+        match guard(|| lib.predict_batch(&refs)) {
+            Ok(v) => {
+                if !v.is_empty() {
+                    rep.violate("C12 predict_batch length", format!("{} outputs for 0 inputs", v.len()), case);
+                }
+            }
+            Err(e) => rep.violate("C12 predict_batch panics", e, case),
+        }
+        return;
+    }
     // predict per element
     rep.transitions += m as u64;
     let singles: Vec<Vec<f32>> = match guard(|| xs.iter().map(|x| flat_dims(&lib.predict(x)).map(|d| d.1)).collect::<Result<Vec<_>, _>>()) {
